@@ -269,7 +269,7 @@ class ExecHooks(Hooks):
         if method == "fetchall":
             return Seq_rows(I, site, len(self.calls))
         if method == "fetch_arrow_table":
-            return Obj(f"arrow#{len(self.calls)}", kind="arrow", num_rows=Sym(f"num_rows#{len(self.calls)}", typ="int"),
+            return Obj(f"arrow#{len(self.calls)}", kind="arrow", num_rows=Sym(f"num_rows#{len(self.calls)}", typ="int", notnone=True),
                        of_call=Const(len(self.calls) - 1))
         return Sym(f"duck.{method}()@{I.siteid(site)}", origin=("engine", method))
 
